@@ -8,6 +8,8 @@ mod c10;
 mod c12;
 mod c18;
 mod c05;
+mod prog;
+mod c03;
 
 fn main() {
     let args: Vec<String> = std::env::args().collect();
@@ -24,6 +26,7 @@ fn main() {
         "C10" => c10::run(&mut sink, thorough, seed),
         "C12" => c12::run(&mut sink, thorough, seed),
         "C05" => c05::run(&mut sink, thorough, seed),
+        "C03" => c03::run(&mut sink, thorough, seed),
         "replay" => { /* replay lines are `op args…` on stdin */
             let mut s = String::new();
             use std::io::Read;
@@ -48,6 +51,7 @@ fn replay(sink: &mut common::Sink, toks: &[&str]) {
         "pfx" => c10::replay(sink, toks),
         "stream" => c12::replay(sink, toks),
         "esc" | "escbufs" | "hex4" | "hex4s" | "scan" => c05::replay(sink, toks),
+        "serc" | "serp" | "serbufs" | "serbufx" | "disp" => c03::replay(sink, toks),
         _ => eprintln!("cannot replay op {}", toks[0]),
     }
 }
